@@ -70,7 +70,9 @@ def run_hist(case):
             D = B.build(dom)
             v = case["volume"]                          # {"c": 7.5} or {"aff": [a, b]} of t
             if "c" in v:
-                D.set_volume(float(v["c"]))
+                form = v.get("as", "float")     # users pass numbers, 0-dim tensors or (1,1) tensors
+                D.set_volume(float(v["c"]) if form == "float" else
+                             (torch.tensor(float(v["c"])) if form == "tensor0" else torch.tensor([[float(v["c"])]])))
                 want = float(v["c"])
             else:
                 a, b = v["aff"]
@@ -80,7 +82,8 @@ def run_hist(case):
 
             def val(x):
                 return float(torch.as_tensor(x).reshape(-1)[0])
-            for op in case["ops"]:
+            # the last step of every history: the user-set value is still what volume() reports
+            for op in list(case["ops"]) + ["volume"]:
                 stats["ops_judged"] = stats.get("ops_judged", 0) + 1
                 log.append(op)
                 try:
